@@ -32,6 +32,6 @@ def check(ctx):
     casts.analyze(ctx, {"C17.a"})   # ids of states, groups and classes are injective
     # the property is observed on scanners obtained through build(): the cache must hand back the configuration's own compilation
     from . import adaptors
-    adaptors.analyze(ctx, ("C02.j", "C08.f"))
+    adaptors.analyze(ctx, ("C02.j", "C03.i", "C08.f"))
     from .common import cache_foundation
     cache_foundation(ctx)
